@@ -25,6 +25,6 @@ PROP = {
 
 TEXT = {
     "technique": "schedule exploration with a controlled scheduler: the harness interposes the pthread mutex/condvar and POSIX semaphore functions, runs one thread at a time and takes every scheduling decision from the generated choice sequence (random with few pre-emptions) or from a stateless depth-first search (every schedule of small programs within a pre-emption bound); history invariants checked at every scheduling point; plus a ThreadSanitizer tier on free-running threads",
-    "level": "Schedule exploration: (1) 16 small programs (2-3 threads x <= 5 operations: wait/unwait_one/unwait_all with and without priority, nested system_lock/unlock, system_lock_save/restore, safe_queue push and size()+pop()) are run under EVERY schedule with <= 3 pre-emptions (<= 4 in thorough; 1 / 2 for the two programs with three threads of which two park) and <= 1 injected spurious condition-variable wake-up, tens of thousands of schedules, at the granularity of synchronisation operations; (2) tens of thousands of random programs (2-4 threads x <= 6 operations, mixed / queue- / wait- / lock-focused) under random schedules. The scheduler models mutexes, condition variables (wake-ups only by signal/broadcast, plus up to one or two deliberately injected spurious returns per execution, as POSIX allows) and semaphores exactly, so blocking is exact: after everything still queued has been woken, any unfinished thread is a detected lost wake-up or deadlock. At every scheduling point the wait queues may only have changed by the running thread's own enqueue (back, or front with priority) or by its unwait taking the front; a waiter must return iff an unwait removed it, once, with that call's future; unwait_one removes at most one; the system lock has one owner at a time across nesting and save/restore and its counter equals the nesting depth; nothing may be notified after its owner destroyed it; safe_queue pops equal pushes with per-producer order. (3) The same random programs run on free-running threads under ThreadSanitizer (3-6 runs each with generated yields); any report is a failure. Schedules beyond the explored bound and interleavings finer than synchronisation operations are only sampled (tier 3). No liveness claim beyond deadlock-at-quiescence. A further target schedules threads over igris::event (wait(), wait(1 h), signal()) and a safe_queue built from an initializer list; the scheduler counts the threads between sem_wait and sem_post of the queue's semaphore (more than one is a violation).",
+    "level": "Schedule exploration: (1) 16 small programs (2-3 threads x <= 5 operations: wait/unwait_one/unwait_all with and without priority, nested system_lock/unlock, system_lock_save/restore, safe_queue push and size()+pop()) are run under EVERY schedule with <= 3 pre-emptions (<= 4 in thorough; 1 / 2 for the two programs with three threads of which two park) and <= 1 injected spurious condition-variable wake-up, tens of thousands of schedules, at the granularity of synchronisation operations; (2) tens of thousands of random programs (2-4 threads x <= 6 operations, mixed / queue- / wait- / lock-focused) under random schedules. The scheduler models mutexes, condition variables (wake-ups only by signal/broadcast, plus up to one or two deliberately injected spurious returns per execution, as POSIX allows) and semaphores exactly, so blocking is exact: after everything still queued has been woken, any unfinished thread is a detected lost wake-up or deadlock. At every scheduling point the wait queues may only have changed by the running thread's own enqueue (back, or front with priority) or by its unwait taking the front; a waiter must return iff an unwait removed it, once, with that call's future; unwait_one removes at most one; the system lock has one owner at a time across nesting and save/restore and its counter equals the nesting depth; nothing may be notified after its owner destroyed it; safe_queue pops equal pushes with per-producer order. (3) The same random programs run on free-running threads under ThreadSanitizer (3-6 runs each with generated yields); any report is a failure. Schedules beyond the explored bound and interleavings finer than synchronisation operations are only sampled (tier 3). No liveness claim beyond deadlock-at-quiescence. A further target schedules threads over igris::event (wait(), wait(1 h), signal()) and a safe_queue built from an initializer list; the scheduler counts the threads between sem_wait and sem_post of the queue's semaphore (more than one is a violation). The event programs also park waiters through waiter_delegate_init with an object of the caller's.",
     "note": "Trusted: the scheduler's model of pthread mutex / condvar / semaphore semantics (FIFO choice of the signalled waiter, spurious wake-ups only where injected, no timeouts), libstdc++'s std::mutex / std::condition_variable mapping onto those calls, ThreadSanitizer. wait_current_schedee is only called with the system lock released (parking while holding it can never be woken); size()+pop() only from a single consumer thread.",
 }
